@@ -1066,7 +1066,8 @@ def stream_iter(ctx):
     rng = ctx.sub_rng('iter')
     sessions = load_corpus('iter') + [gen_session(rng) for _ in range(ctx.n(48, 600))] \
         + [gen_session(rng, long=True) for _ in range(ctx.n(6, 80))]
-    B = max(1, (len(sessions) + 15) // 16)
+    nb = ctx.n(8, 16)
+    B = max(1, (len(sessions) + nb - 1) // nb)
     batches = [sessions[i:i + B] for i in range(0, len(sessions), B)]
     results = ctx.impl_parallel('c15_iter.py', [{'mode': 'iter', 'sessions': b} for b in batches], timeout=1500)
     results = [r for batch in results for r in batch]
@@ -1088,7 +1089,7 @@ def stream_iter(ctx):
         report(ctx, h.viol, sess, 'iter')
         cases.append((h.coq(sess.get('pre_file')), len(h.labels()), sess, h.labels(), 'run_case'))
     st.extra['evaluations_inside_sessions'] = sum(c[1] for c in cases)
-    res = eval_cases(ctx, st, 'iter', cases, per_file=max(4, len(cases) // 16 + 1))
+    res = eval_cases(ctx, st, 'iter', cases, per_file=max(4, len(cases) // ctx.n(8, 16) + 1))
     for c, bs in zip(cases, res):
         if bs is None:
             continue
@@ -1160,10 +1161,19 @@ def stream_parse(ctx):
         s['pre_file'] = c['content']
         s['ops'] = [{'op': 'new'}, {'op': 'load'}]
         sessions.append(s)
-    B = max(1, (len(sessions) + 15) // 16)
-    batches = [sessions[i:i + B] for i in range(0, len(sessions), B)]
+    # file names for random model names ride in the same subprocesses
+    names = ['m', 'my model', 'a.b', '', 'x__y', '.iter', 'M=1'] + [''.join(rng.choice('abcXYZ_.- 019') for _ in range(rng.randint(1, 12)))
+                                                                  for _ in range(ctx.n(20, 200))]
+    nsess = [{'names': ['b1'], 'targets': [fhex(1.0)], 'init': [fhex(0.5)], 'weights': [[1.0]], 'rows': 1, 'model': m,
+              'save': True, 'div': False, 'ops': [{'op': 'new'}]} for m in names]
+    allsess = sessions + nsess
+    nb = ctx.n(6, 16)
+    B = max(1, (len(allsess) + nb - 1) // nb)
+    batches = [allsess[i:i + B] for i in range(0, len(allsess), B)]
     results = ctx.impl_parallel('c15_iter.py', [{'mode': 'iter', 'sessions': b} for b in batches], timeout=900)
     results = [r for batch in results for r in batch]
+    nres = results[len(sessions):]
+    results = results[:len(sessions)]
     items = []
     for c, sess, res in zip(cases, sessions, results):
         if 'harness_exc' in res:
@@ -1178,18 +1188,12 @@ def stream_parse(ctx):
                           {'mode': 'iter', 'session': sess})
         term = (f'({ccfg(sess)}, {cs(c["content"])}, {"true" if rec["ok"] else "false"}, {cvec(rec["init"])})')
         items.append((term, 1, sess, ['load'], 'load_case'))
-    # file names
-    names = ['m', 'my model', 'a.b', '', 'x__y', '.iter', 'M=1'] + [''.join(rng.choice('abcXYZ_.- 019') for _ in range(rng.randint(1, 12)))
-                                                                  for _ in range(ctx.n(20, 200))]
-    nsess = [{'names': ['b1'], 'targets': [fhex(1.0)], 'init': [fhex(0.5)], 'weights': [[1.0]], 'rows': 1, 'model': m,
-              'save': True, 'div': False, 'ops': [{'op': 'new'}]} for m in names]
-    nres = ctx.impl('c15_iter.py', {'mode': 'iter', 'sessions': nsess})
     for m, r in zip(names, nres):
         st.record({'model': m}, nontrivial=True)
         items.append((f'({cs(m)}, {cs(r["steps"][0]["fname"])})', 1, m, ['name'], 'name_case'))
     load_items = [i for i in items if i[4] == 'load_case']
     name_items = [i for i in items if i[4] == 'name_case']
-    res = eval_cases(ctx, st, 'parse', load_items, per_file=max(10, len(load_items) // 16 + 1)) \
+    res = eval_cases(ctx, st, 'parse', load_items, per_file=max(10, len(load_items) // ctx.n(5, 16) + 1)) \
         + eval_cases(ctx, st, 'names', name_items, per_file=250)
     for c, bs in zip(load_items + name_items, res):
         if bs is not None and not all(bs):
@@ -1345,7 +1349,8 @@ def stream_crash(ctx):
                                  'new': content})
                 prev = content
                 j += 1
-    B = max(1, (len(sessions) + 31) // 32)
+    nb = ctx.n(12, 32)
+    B = max(1, (len(sessions) + nb - 1) // nb)
     batches = [sessions[i:i + B] for i in range(0, len(sessions), B)]
     results = ctx.impl_parallel('c15_iter.py', [{'mode': 'crash', 'sessions': b} for b in batches], timeout=1500)
     results = [r for batch in results for r in batch]
@@ -1388,7 +1393,7 @@ def stream_crash(ctx):
         for key, what, detail in viol:
             ctx.violation(key.replace('C15/iter/', 'C15/crash/'), what, wit, observed=detail, how='./check C15 --replay <this file>')
         cases.append((h.coq(s2.get('pre_file')), len(h.labels()), wit, h.labels(), 'run_case'))
-    res = eval_cases(ctx, st, 'crash', cases, per_file=max(4, len(cases) // 16 + 1))
+    res = eval_cases(ctx, st, 'crash', cases, per_file=max(4, len(cases) // ctx.n(8, 16) + 1))
     for c, bs in zip(cases, res):
         if bs is None:
             continue
@@ -1480,9 +1485,15 @@ def run(ctx):
         timing[name] = round(time.time() - t, 1)
 
     timed('build', ctx.build)
-    timed('iter', lambda: stream_iter(ctx))
-    timed('parse', lambda: stream_parse(ctx))
-    timed('crash', lambda: stream_crash(ctx))
+    # the three streams are independent: run them side by side (each one alternates between waiting for
+    # implementation subprocesses and waiting for coqc)
+    from concurrent.futures import ThreadPoolExecutor
+    with ThreadPoolExecutor(max_workers=3) as ex:
+        futs = [ex.submit(timed, 'iter', lambda: stream_iter(ctx)),
+                ex.submit(timed, 'parse', lambda: stream_parse(ctx)),
+                ex.submit(timed, 'crash', lambda: stream_crash(ctx))]
+        for f in futs:
+            f.result()
     if not ctx.quick:
         timed('sigkill', lambda: stream_kill(ctx))
     if ctx.broken and not ctx.violations:
